@@ -1,9 +1,10 @@
 package main
 
-// Driver "udprace" (C10, NOT part of the regular runs; called by hand): replays of a possible finding in
-// server/proxy/udp.go.  A udp proxy is registered, served its work connection, and terminated at once.
-// Nothing goes to impl_failures and no model cases are written; the stats say per variant how many
-// trials left a work connection open 2 s after the termination.
+// Driver "udprace" (C10): replays of the schedules of finding F-C10d (server/proxy/udp.go, repaired in
+// /repo: Close ends the loop of Run first, and a work connection fetched while the proxy was being closed
+// is closed on the spot; model and theorems: Model/UdpLoop.v).  A udp proxy is registered, served its work
+// connection, and terminated at once.  Every trial that leaves a work connection open 2 s after the
+// termination, or in which a closed proxy takes a connection out of the pool, is an implementation failure.
 //
 //	work/h_c10 udprace -seed 1 -n 20 -stats /tmp/x/udprace.json
 
@@ -41,11 +42,11 @@ func runUDPRace(cfg *hx.RunCfg) error {
 	rec := newRecorder()
 	n := cfg.N
 	if n <= 0 || n > 50 {
-		n = 20
+		n = 4
 	}
 	out := []map[string]any{}
 	for vi, v := range raceVariants {
-		w, err := newWorld(worldOpts{addr: fmt.Sprintf("127.0.10.%d", 7+vi), ranges: []types.PortsRange{{Start: basePort, End: basePort + 3}},
+		w, err := newWorld(worldOpts{addr: loop(7 + vi), ranges: []types.PortsRange{{Start: basePort, End: basePort + 3}},
 			runTag: fmt.Sprintf("%d-race%d", cfg.Seed, vi), label: "udprace:" + v.name, rec: rec})
 		if err != nil {
 			return err
@@ -140,7 +141,22 @@ func runUDPRace(cfg *hx.RunCfg) error {
 	cfg.St["samples"] = []string{}
 	cfg.St["distribution"] = map[string]int{"variants": len(raceVariants), "trials_per_variant": n}
 	cfg.St["variants"] = out
-	cfg.St["impl_failures"] = []map[string]string{}
-	cfg.St["note"] = "replay driver for a possible finding in server/proxy/udp.go; not part of the regular runs"
+	fails := []map[string]string{}
+	total := 0
+	for _, r := range out {
+		leaks, _ := r["left_open_after_2s"].(int)
+		stolen, _ := r["pooled_conn_got_startworkconn_after_close"].(int)
+		total += r["trials"].(int) - r["aborted"].(int)
+		if leaks > 0 || stolen > 0 {
+			fails = append(fails, map[string]string{
+				"key":  "udp-closed-proxy-keeps-work-conn:" + r["variant"].(string),
+				"what": fmt.Sprintf("%d of %d trials left a work connection open 2 s after the udp proxy terminated (%d pooled connections were taken by the closed proxy)", leaks, r["trials"], stolen),
+				"case": r["sequence"].(string)})
+		}
+	}
+	cfg.St["cases"] = total
+	cfg.St["distinct_nontrivial"] = len(raceVariants)
+	cfg.St["impl_failures"] = fails
+	cfg.St["note"] = "replays the schedules of F-C10d (UDPProxy.Close vs the loop of Run) on the real server"
 	return cf.Write(cfg.Out)
 }
